@@ -41,4 +41,14 @@ extern "C" {
     pub fn cv_res_ok(r: *const c_void) -> u64;
     pub fn cv_res_err(r: *const c_void) -> u32;
     pub fn cv_opt_make(tag: u32, v: u64) -> RawOpt;
+    pub fn cv_sizeof(which: i32) -> usize;
+    pub fn cv_opt8_tag(o: *const c_void) -> u32;
+    pub fn cv_opt8_value(o: *const c_void) -> u8;
+    pub fn cv_opt16_tag(o: *const c_void) -> u32;
+    pub fn cv_opt16_value(o: *const c_void) -> u16;
+    pub fn cv_opt8_fill(o: *mut c_void, tag: u32, v: u8);
+    pub fn cv_opt16_fill(o: *mut c_void, tag: u32, v: u16);
+    pub fn cv_res816_tag(r: *const c_void) -> u32;
+    pub fn cv_res816_ok(r: *const c_void) -> u8;
+    pub fn cv_res816_err(r: *const c_void) -> u16;
 }
